@@ -407,7 +407,7 @@ func (c *ctx) genStructObject(depth int, id, force string) *Shape {
 	r := c.r
 	name := force
 	if name == "" {
-		name = wk.Pick(r, []string{"P1", "P1", "*P1", "P2", "P3", "P5", "*P5", "P6", "P7", "P8", "P9"})
+		name = wk.Pick(r, []string{"P1", "P1", "*P1", "P2", "P3", "P5", "*P5", "P6", "P7", "P8", "P9", "P12"})
 	}
 	s := &Shape{Kind: KObject, ID: id, Struct: name}
 	intT := func() *Shape { t := &Shape{Kind: KInt}; t.Min, t.Max = genIntBounds(r, false); return t }
@@ -469,6 +469,8 @@ func (c *ctx) genStructObject(depth int, id, force string) *Shape {
 		}
 	case "P9":
 		s.Props = []*Prop{{Name: "FieldByName", T: intT()}, {Name: "other", T: strT()}}
+	case "P12":
+		s.Props = []*Prop{{Name: "mid", T: c.genStructObject(depth+1, c.nextID("P3o"), "P3")}, {Name: "other", T: c.genStructObject(depth+1, c.nextID("P3o"), "P3")}, {Name: "tag", T: strT()}}
 	}
 	c.decorateStruct(s, nil)
 	// presence rules among the properties a struct can leave unset (pointer fields, treat-empty-as-default)
@@ -611,6 +613,9 @@ func (c *ctx) decorateStruct(o *Shape, env *Env) {
 		if c.cfg.Defaults && !p.EmptyDef && r.Chance(20) && p.T.Kind != KOneOfStr && p.T.Kind != KOneOfInt {
 			if raw, ok := ValidRaw(r, p.T, env, 0); ok {
 				p.Default = jsonText(jsonable(raw))
+				if c.cfg.GoodDefaults && lossyInJSON(raw) {
+					p.Default = nil // integers beyond 2^53 do not survive the JSON text of a default
+				}
 			}
 		}
 	}
@@ -739,7 +744,7 @@ func GenObjectStandalone(r *wk.Rand, cfg Cfg) *Shape {
 var pointerFields = map[string]map[string]bool{
 	"P1": {"c": true, "d": true}, "*P1": {"c": true, "d": true}, "P3": {"pinner": true, "n": true},
 	"P4b": {"z": true}, "P7": {"opt": true, "choice": true}, "P2": {"extra": true},
-	"P10": {"a": true, "b": true, "c": true}, "*P10": {"a": true, "b": true, "c": true}, "P11": {"n": true, "m": true},
+	"P10": {"a": true, "b": true, "c": true}, "*P10": {"a": true, "b": true, "c": true}, "P11": {"n": true, "m": true}, "P12": {"tag": true},
 }
 
 // AllAbsentable reports whether every property of a struct-mapped object is mapped to a field that can
@@ -787,12 +792,40 @@ func admitsZero(t *Shape) bool {
 		if t.Struct == "" {
 			return false
 		}
+		// the zero struct denotes the object in which exactly the properties mapped to non-pointer,
+		// non-treat-empty-as-default fields are present, each with its zero value
+		present := map[string]bool{}
 		for _, p := range t.Props {
-			if pointerFields[t.Struct][p.Name] || p.EmptyDef {
+			present[p.Name] = !(pointerFields[t.Struct][p.Name] || p.EmptyDef)
+		}
+		for _, p := range t.Props {
+			if present[p.Name] {
+				if p.Required || !admitsZero(p.T) {
+					return false
+				}
+				for _, o := range p.Conflicts {
+					if present[o] {
+						return false
+					}
+				}
 				continue
 			}
-			if p.Required || !admitsZero(p.T) {
+			if p.Required {
 				return false
+			}
+			for _, o := range p.ReqIf {
+				if present[o] {
+					return false
+				}
+			}
+			if len(p.ReqIfNot) > 0 {
+				anyPresent := false
+				for _, o := range p.ReqIfNot {
+					anyPresent = anyPresent || present[o]
+				}
+				if !anyPresent {
+					return false
+				}
 			}
 		}
 		return true
